@@ -82,7 +82,7 @@ class Prop(BaseProp):
                     else:
                         yield Verdict('ok', case, nontrivial=False, tags=['deprecated'])
                     continue
-                names = [(key, v) for v in cases_of(key)] + [(a, v) for a in aliases if a for v in cases_of(a)[:3]]
+                names = [(key, v) for v in cases_of(key)] + [(a, v) for a in aliases if a.strip() for v in cases_of(a)[:3]]
                 for nm, v in names:
                     case = dict(case0, kind=kind, key=key, text=v)
                     try:
@@ -173,8 +173,16 @@ class Prop(BaseProp):
                 r['spdx_license_key'] = rng.choice(['SPDX-%d' % i, 'LicenseRef-x-%d' % i])
             elif rng.random() < 0.5:
                 r['spdx_license_key'] = None
-            if rng.random() < 0.4:
-                r['other_spdx_license_keys'] = ['old-%d' % i] + (['Older-%d.0' % i] if rng.random() < 0.5 else [])
+            if rng.random() < 0.5:
+                al = ['old-%d' % i] + (['Older-%d.0' % i] if rng.random() < 0.5 else [])
+                if rng.random() < 0.3:
+                    al.append('old license %d' % i)                       # several words
+                if rng.random() < 0.3:                                       # the same alias again, other case / spacing
+                    a = rng.choice(al)
+                    al.append(rng.choice([a.upper(), a.swapcase(), a.replace(' ', '  '), ' ' + a, a]))
+                if rng.random() < 0.15:
+                    al.insert(rng.randrange(len(al) + 1), rng.choice(['', ' ']))   # an empty alias
+                r['other_spdx_license_keys'] = al
             if rng.random() < 0.8:
                 r['is_exception'] = rng.random() < 0.3
             if rng.random() < 0.3:
